@@ -38,6 +38,10 @@ def run(rep, idx, tier):
     rep.require("C15.2", 1)
     rep.require("C15.3", 4)
     rep.require("C15.4", 5)
+    rep.require("C15.5", 2)
+    from . import glue as _glue
+    _glue.reset_discipline(rep, "C15.5", idx, ["WishboneSRAM"])
+    _glue.iterable_handover(rep, "C15.5", idx, "WishboneSRAM.__init__", "init", "MemoryData", "init")
     c = get_ctx(idx, "WishboneSRAM.elaborate")
     ctor = get_ctor(idx, "WishboneSRAM")
     rep.analysed(c.fi.site, ctor.fi.site)
